@@ -20,13 +20,12 @@ TEXT = {
  'C06': ('single-queue futures model with three runner contexts and in-flight wakes: no-lost-wake invariant and terminal theorem', 'machine-checked invariant (Coq, L2) + generated waker tables + controlled-runtime wake-position sweeps'),
  'C07': ('scheduler-future cell: resolves at most once, only after the operation finished, pending poll leaves a waker or a result; detached operations still run', 'machine-checked invariants (Coq, L2) + generated poll table/facts + controlled-runtime monitors'),
  'C13': ('suspend as a future operation: everything before finished at resolution, nothing after starts before resume', 'machine-checked corollary (Coq, L2) + controlled-runtime suspend oracle on the queue-level API'),
- 'C10': ('independence of objects with gated operations', 'machine-checked pool invariant (Coq) + controlled-runtime gate profile'),
+ 'C10': ('L-quiet with FROZEN actors: for every reachable state in which every actor outside a set B of blocked ones (pool threads inside a job, callers inside a closure) cannot move, and fewer pool threads are blocked than the maximum (or a thread is free / may be spawned): every queue not owned by a blocked actor is Idle and empty, every caller not waiting behind a blocked actor has finished, every other pool thread is dormant; a thread blocked in sync is not a pool thread (Hall-style matching invariant InvM, all programs/schedules); gate profile on the real crate', 'machine-checked liveness invariant with frozen actors (Coq, L1g) + generated tables/facts + controlled-runtime gate profile'),
  'C14': ('PARTIAL BY NATURE - the lifetime protocol the unsafe sites rely on: a queued or in-hand lifetime-erased sync job belongs to a caller still inside that call and has not run; closures run at most once and only after being pushed; nothing on an object runs after its free operation (L1h theorems, all programs/schedules); canary payloads on the real crate in every profile; undefined behaviour outside the protocol is out of reach of the model', 'machine-checked protocol invariants (Coq, L1h) + canary payloads under the controlled runtime'),
 }
 PENDING = {
  'C06': 'futures/waker layer (coq/theories/L2) still under construction in this session; wake-position exploration exists in the harness but no theorem yet, so the property is not claimed',
  'C07': 'futures layer (coq/theories/L2) still under construction; not claimed until its theorems compile',
- 'C10': 'needs gated operations in the L1 liveness proof (terminal states with k blocked pool threads); only the gate profile of the harness exists; not claimed',
  'C13': 'depends on the futures layer (coq/theories/L2); the suspend oracle exists in the harness but no theorem yet; not claimed',
 #'C14': 'memory safety of the Rust implementation itself (aliasing, transmute validity, allocator behaviour) cannot be stated over the executable model; the lifetime protocol it relies on is covered by C01/C02/C04/C05 and by canary payloads in every profile; a dedicated protocol theorem is not built yet',
 }
